@@ -17,8 +17,8 @@ from typing import Any, Callable, Dict, List, Optional
 
 VERIF = os.path.dirname(os.path.dirname(os.path.abspath(__file__)))
 REPO = os.environ.get("VERIF_REPO", "/repo")
-EVIDENCE_DIR = os.path.join(VERIF, "evidence")
-REPLAY_DIR = os.path.join(VERIF, "replays")
+EVIDENCE_DIR = os.environ.get("VERIF_EVIDENCE_DIR") or os.path.join(VERIF, "evidence")
+REPLAY_DIR = os.environ.get("VERIF_REPLAY_DIR") or os.path.join(VERIF, "replays")
 REGRESS_DIR = os.path.join(VERIF, "regress")
 KNOWN_FILE = os.path.join(VERIF, "known_findings.json")
 
@@ -284,7 +284,11 @@ def load_known() -> List[dict]:
 
 
 def known_open_sigs(prop: str) -> Dict[str, dict]:
-    return {k["sig"]: k for k in load_known() if k.get("property") == prop and k.get("status") == "open"}
+    out = {k["sig"]: k for k in load_known() if k.get("property") == prop and k.get("status") == "open"}
+    # development aid only (never set by registered commands): treat extra signatures as known
+    for sig in filter(None, os.environ.get("VF_ASSUME_KNOWN", "").split(",")):
+        out.setdefault(sig, {"property": prop, "sig": sig, "status": "open", "what": "(assumed via VF_ASSUME_KNOWN)"})
+    return out
 
 
 def _is_known(ctx: Ctx, sig: str) -> bool:
